@@ -123,8 +123,13 @@ def identity(name, lhs, rhs, *, kind="bounded", functions=(), inputs=None, note=
 
 def crosscheck(name, inputs, sym_out, native_out, tol=1e-8, functions=()):
     """Engine self-check: symbolic result evaluated at the point == the real function run by JAX at the point."""
-    a = inputs.val(sym_out)
+    try:
+        a = inputs.val(sym_out)
+    except ZeroDivisionError:
+        return None      # the rational sample point happens to be a pole of the result: nothing to compare
     b = np.asarray(native_out)
+    if not np.all(np.isfinite(b)):
+        return None
     a = np.asarray(a).reshape(np.shape(b))
     err = float(np.max(np.abs(a - b) / (1.0 + np.abs(b)))) if b.size else 0.0
     if not np.isfinite(err) or err > tol:
